@@ -16,8 +16,8 @@ RULE = ('exhaustive catalogue: defuse mode {always, remote, nonlocal, never} x s
         'file, binary file, non-seekable raw stream, non-seekable buffered stream, path, file URL, remote URL through a stub '
         'opener} x DTD payload {internal entity (used / unused), external SYSTEM / PUBLIC entity, parameter entity (internal / '
         'external), unparsed entity + notation, external DTD subset (SYSTEM / PUBLIC), nested entities, small billion-laughs, '
-        'declaration after a 70 KiB prolog, UTF-16 / BOM / declared-encoding variants, DOCTYPE without entities, no DOCTYPE} x '
-        'role {instance, main schema, included schema, imported schema}; a case = one cell; non-trivial = defusing applies and '
+        'standalone documents, references to undeclared parameter entities, declaration after a 70 KiB prolog, UTF-16 / BOM / declared-encoding variants, DOCTYPE without entities, no DOCTYPE} x '
+        'role {instance, main schema, included schema, imported schema} x base_url {none, remote, local} for sources without a URL; a case = one cell; non-trivial = defusing applies and '
         'the payload declares an entity or references an external subset; thorough adds lazy resources and a 1 MiB prolog')
 ASSUMPTIONS = [
     'whether defusing applies is computed from the documented rule (mode x locality of the base URL), not from is_defused()',
